@@ -12,7 +12,7 @@ from vf.simk.world import World, Thread, FD, Mapping, oserr
 ID = "C03"
 LEVEL = "fault_enumeration"
 ALT_MOUNT = True          # run once more with procfs mounted at /hostproc (vf/child.py)
-DEVS = ("vanish", "zombie", "eacces", "eperm", "halfgone")
+DEVS = ("vanish", "zombie", "eacces", "eperm", "halfgone", "dying")
 PSUTIL_ERRS = ("NoSuchProcess", "ZombieProcess", "AccessDenied")
 CACHED_OK = {"pid", "create_time"}
 # operations about *other* processes / the object's liveness: they have a
@@ -80,6 +80,9 @@ def apply_dev(world, dev, kind, subj, pid, persistent=False):
     elif dev == "halfgone":
         if pid in world.procs:
             world.procs[pid].halfgone = True
+    elif dev == "dying":
+        if pid in world.procs:
+            world.procs[pid].dying = True
     elif dev in ("eacces", "eperm"):
         if not persistent:
             raise oserr(errno.EACCES if dev == "eacces" else errno.EPERM, str(subj))
@@ -306,7 +309,7 @@ class Oracle:
             if info.get("pid") != objpid:
                 return ("wrong-pid:%s:%s" % (op, cls), "%s raised %s pid=%r, object pid=%r faults=%r"
                         % (op, cls, info.get("pid"), objpid, faults))
-            need = {"NoSuchProcess": {"vanish", "halfgone"}, "ZombieProcess": {"zombie"},
+            need = {"NoSuchProcess": {"vanish", "halfgone", "dying"}, "ZombieProcess": {"zombie"},
                     "AccessDenied": {"eacces", "eperm"}}[cls]
             if not (kinds & need):
                 if (cls == "NoSuchProcess" and "PID has been reused" in info.get("str", "")
@@ -353,9 +356,9 @@ class Oracle:
             # the kernel itself answers an empty read once the address space is
             # gone: {} is what was published
             accept = accept + [{}, {"environ": {}}]
-        if "halfgone" in kinds and tag == "parent":
+        if kinds & {"halfgone", "dying"} and tag == "parent":
             accept = accept + [None]
-        if kinds & {"eacces", "eperm", "halfgone"}:
+        if kinds & {"eacces", "eperm", "halfgone", "dying"}:
             # a refused access may legitimately switch to a fallback source:
             # require the documented shape only (same type as an accepted value)
             if value_ok(op, v, accept, True):
